@@ -27,7 +27,7 @@ static void t0n_region_chk(const void *p, size_t n, int wr);
 static void *t0n_x_memcpy(void *d, const void *s, size_t n) { (void)s; (void)n; return d; }
 static void *t0n_x_memset(void *d, int c, size_t n) { (void)c; (void)n; return d; }
 static int t0n_x_memcmp(const void *a, const void *b, size_t n) { (void)a; (void)b; (void)n; return ND_INT(); }
-static size_t t0n_x_strlen(const char *s) { (void)s; return ND_SIZE(); }
+static size_t t0n_x_strlen(const char *s) { size_t n = 0; while (s[n] != 0) { n ++; } return n; }   /* strings come from the environment (bounded) */
 #else
 #define T0N_GUARD 1
 /* checked versions: region inside the object (CBMC r_ok/w_ok) and, when the
